@@ -476,6 +476,10 @@ Definition parse_body (q : quirks) (tbl : table) (lines : list string) : res dat
 Definition parse (q : quirks) (tbl : table) (lines : list string) : res data :=
   parse_body q tbl (after_header lines).
 
+(* the second way into the same data, midgard.gnss.antenna_calibration.AntennaCalibration(path).data: the parser's
+   dictionary as it is - every validity period keeps the start and end printed for it (no sorting, clipping, merging) *)
+Definition calibration_data (q : quirks) (tbl : table) (lines : list string) : res data := parse q tbl lines.
+
 (* lines that can be dropped without changing anything: no method is called and no group ends *)
 Definition relevant (tbl : table) (raw : string) : bool :=
   match prelex tbl raw with (Some _, _) => true | (None, e) => e end.
